@@ -53,6 +53,8 @@ type RunOut struct {
 	DraClaims      int `json:"draClaims"`
 	DraTmpl        int `json:"draTmpl"`
 	DraTmplCounter int `json:"draTmplCounter"`
+	// CapacityBuffer virtual pods the simulation placed (existing nodes or new NodeClaims)
+	Virtual int `json:"virtual"`
 }
 
 type SimOut struct {
@@ -188,6 +190,20 @@ func implSimulate(raw json.RawMessage) (any, error) {
 			}
 			ro.PodErrors = len(res.PodErrors)
 			ro.DraClaims, ro.DraTmplCounter, ro.DraTmpl = draSummary(res)
+			for _, en := range res.ExistingNodes {
+				for _, p := range en.Pods {
+					if isVirtual(p) {
+						ro.Virtual++
+					}
+				}
+			}
+			for _, nc := range res.NewNodeClaims {
+				for _, p := range nc.Pods {
+					if isVirtual(p) {
+						ro.Virtual++
+					}
+				}
+			}
 		}
 		if cur, err = take(); err != nil {
 			return nil, err
@@ -301,6 +317,14 @@ func genWorld(r *rand.Rand, t core.Tier) (*world.Scenario, *Ext) {
 	if r.Float64() < 0.15 {
 		ext.UntrackedAntiPods = 1 + r.IntN(2)
 	}
+	// CapacityBuffers: virtual pods from the long-lived cache join the pods of every simulation; half of these worlds also
+	// configure cluster-default spread constraints
+	if r.Float64() < 0.2 {
+		ext.Buffers = genBuffers(r, s)
+		if r.Float64() < 0.5 {
+			ext.DefaultSpread = true
+		}
+	}
 	// dynamic resource allocation: template devices / counter budgets on the instance types, claims on pending and bound pods
 	if r.Float64() < 0.35 {
 		ext.DRA = genDra(r, s)
@@ -379,6 +403,9 @@ func simLabels(raw json.RawMessage, impl any) []string {
 			if n, _ := rm["placed"].(json.Number); n != "" && n != "0" {
 				l = append(l, "places-on-existing")
 			}
+			if n, _ := rm["virtual"].(json.Number); n != "" && n != "0" {
+				l = append(l, "buffer:virtual-pods-placed-by-simulation")
+			}
 			if n, _ := rm["draClaims"].(json.Number); n != "" && n != "0" {
 				l = append(l, "dra:allocates-claims")
 			}
@@ -391,6 +418,7 @@ func simLabels(raw json.RawMessage, impl any) []string {
 		}
 	}
 	l = append(l, draLabels(in.Ext.DRA)...)
+	l = append(l, bufferLabels(in.Ext.Buffers, in.Ext.DefaultSpread)...)
 	for _, r := range in.Runs {
 		l = append(l, "mode:"+r.Mode)
 		if r.Mark != "" {
@@ -473,8 +501,21 @@ func shrinkSim(raw json.RawMessage) []any {
 	}
 	if len(in.Ext.PDBs) > 0 || len(in.Ext.Volumes) > 0 || in.Ext.DefaultSpread || len(in.Ext.InvalidPods) > 0 || in.Ext.UntrackedAntiPods > 0 {
 		x := in
-		x.Ext = Ext{Volumes: map[string]int{}, DRA: in.Ext.DRA}
+		x.Ext = Ext{Volumes: map[string]int{}, DRA: in.Ext.DRA, Buffers: in.Ext.Buffers, DefaultSpread: in.Ext.DefaultSpread && len(in.Ext.Buffers) > 0}
 		out = append(out, x)
+	}
+	for _, c := range core.ShrinkList(in.Ext.Buffers) {
+		x := in
+		x.Ext.Buffers = c
+		out = append(out, x)
+	}
+	for i, b := range in.Ext.Buffers {
+		if b.Replicas > 1 {
+			x := in
+			x.Ext.Buffers = append([]Buffer{}, in.Ext.Buffers...)
+			x.Ext.Buffers[i].Replicas = 1
+			out = append(out, x)
+		}
 	}
 	if in.Ext.DRA != nil {
 		x := in
